@@ -368,6 +368,10 @@ func assign(field reflect.Value, g any) error {
 		field.Set(gv.Elem())
 		return nil
 	}
+	if gv.Kind() == reflect.String && ft.Kind() == reflect.Slice && (ft.Elem().Kind() == reflect.Uint8 || ft.Elem().Kind() == reflect.Int32) {
+		field.Set(gv.Convert(ft)) // a string property backed by a []byte / []rune field
+		return nil
+	}
 	switch ft.Kind() {
 	case reflect.Slice:
 		if gv.Kind() != reflect.Slice {
@@ -665,6 +669,17 @@ func (r *Resolver) from(x any, s *Schema) (*Value, error) {
 		return FromGo(x, r.E)
 	}
 	switch s.Kind {
+	case "string":
+		// a string property held by a []byte / []rune / defined-string field is the string it converts to
+		switch v := x.(type) {
+		case []byte:
+			return FromGo(string(v), r.E)
+		case []rune:
+			return FromGo(string(v), r.E)
+		case NamedStr:
+			return FromGo(string(v), r.E)
+		}
+		return FromGo(x, r.E)
 	case "scope":
 		inner := &Resolver{E: r.E, objs: map[string]*Schema{}}
 		for _, o := range s.Objects {
